@@ -183,7 +183,11 @@ def opaque(label="opaque", **kw):
 
 
 def new_object(cls=None, **kw):
-    raise RuntimeError("new_object() has no native meaning")
+    """An instance of `cls` whose constructor is NOT run; attributes are set directly."""
+    obj = object.__new__(cls) if cls is not None else type("Obj", (), {})()
+    for k, v in kw.items():
+        object.__setattr__(obj, k, v)
+    return obj
 
 
 def mutated(v):
